@@ -291,4 +291,135 @@ Section Inv.
         * specialize (Old eq_refl). now rewrite vc_unbuilt, Rd in Old.
         * destruct (PF eq_refl) as [Rp Sp']. eapply S2; eauto.
   Qed.
+
+  (* ------------------------------------------------------------- evaluate *)
+  Lemma eval_inv s n : Inv s -> st_built s n = true ->
+    Inv {| st_cache := fst (eval (S N) (st_cache s) n); st_built := st_built s |}
+    /\ snd (eval (S N) (st_cache s) n) = spec (st_cache s) n
+    /\ (forall k, isinput k = true -> fst (eval (S N) (st_cache s) n) k = st_cache s k).
+  Proof.
+    intros I Bn. pose proof (inv_lt s I n Bn) as L.
+    destruct (eval_top W sem WF NB (st_cache s) n L (Inv_coherent s I)) as (E0 & V & _).
+    set (c' := fst (eval (S N) (st_cache s) n)) in *.
+    assert (E: ext W sem (fun m => st_built s m = true) (st_cache s) c').
+    { eapply ext_weaken; [|exact E0]. intros k [->|A]; auto.
+      eapply anc_closed; eauto. apply (inv_deps s I). }
+    split; [|split; [exact V|intros k Ik; eapply ext_inputs; eauto]].
+    split; cbn [st_cache st_built].
+    - apply (inv_lt s I).
+    - apply (inv_deps s I).
+    - intros m Bm. destruct (ext_region W sem _ _ _ m E) as [H|H]; [|congruence].
+      rewrite H. now apply (inv_unbuilt s I).
+    - intros m Lm Im. unfold vc. cbn [st_cache st_built]. rewrite Im, orb_false_r.
+      destruct (st_built s m) eqn:Bm.
+      + intros H. apply (ext_coherent W sem WF _ _ c' (Inv_coherent s I) E m Lm Im H).
+      + intros H. rewrite (ext_spec W sem WF _ _ _ m E Lm).
+        rewrite <- (inv_coh s I m Lm Im); rewrite vc_unbuilt; auto.
+    - intros p d Ld Hd Bp Ip Hp.
+      assert (Id: isinput d = false) by (eapply dep_noninput; eauto).
+      assert (Hp0: st_cache s p = VNone) by (eapply ext_none; eauto).
+      pose proof (inv_clo s I p d Ld Hd Bp Ip Hp0) as Old.
+      unfold vc in *. cbn [st_cache st_built]. rewrite Id, orb_false_r in *.
+      destruct (st_built s d) eqn:Bd; auto.
+      destruct (E d) as [H|(_&_&_&_&_&_&Fd)]; [congruence|exfalso; now apply (Fd p Hd Ip)].
+  Qed.
+
+  Lemma evaluate_unfold s n : evaluate W sem s n =
+    ({| st_cache := fst (eval (S N) (st_cache (build W sem s n)) n);
+        st_built := st_built (build W sem s n) |},
+     snd (eval (S N) (st_cache (build W sem s n)) n)).
+  Proof. unfold evaluate. destruct (eval (S N) (st_cache (build W sem s n)) n); reflexivity. Qed.
+
+  Lemma evaluate_inv s n : stored_ok -> Inv s -> n < N ->
+    Inv (fst (evaluate W sem s n))
+    /\ snd (evaluate W sem s n) = spec (st_cache s) n
+    /\ (forall k, isinput k = true -> st_cache (fst (evaluate W sem s n)) k = st_cache s k).
+  Proof.
+    intros SO I L. rewrite evaluate_unfold. cbn [fst snd].
+    pose proof (build_inv s n SO I L) as I1.
+    destruct (eval_inv (build W sem s n) n I1 (build_built s n I L)) as (I2 & V & Inp).
+    split; [exact I2|]. split.
+    - rewrite V. apply spec_ext; auto. intros m _ Im. now apply build_inputs.
+    - intros k Ik. cbn [st_cache]. rewrite Inp by auto. now apply build_inputs.
+  Qed.
+
+  (* ------------------------------------------------------------ set_value *)
+  (* the build-order side condition (c): a descendant of the written cell that
+     is not built yet has no stored result *)
+  Definition late_ok (s : state) (a : nat) : Prop :=
+    forall d, d < N -> anc a d -> st_built s d = false -> isrange d = true \/ stored d = VNone.
+
+  Lemma set_value_unfold s a v : set_value W s a v =
+    if negb (st_built s a) then s
+    else if py_eq (st_cache s a) v && same_type (st_cache s a) v then s
+    else {| st_cache := upd (reset_forced W (st_built s) a (upd (st_cache s) a v)) a v;
+            st_built := st_built s |}.
+  Proof. reflexivity. Qed.
+
+  Lemma write_inv s a v : Inv s -> st_built s a = true -> isinput a = true -> late_ok s a ->
+    let s' := {| st_cache := upd (reset_forced W (st_built s) a (upd (st_cache s) a v)) a v;
+                 st_built := st_built s |} in
+    Inv s' /\ st_cache s' a = v
+    /\ (forall k, k < N -> isinput k = true -> k <> a -> st_cache s' k = st_cache s k).
+  Proof.
+    intros I Ba Ia Late. pose proof (inv_lt s I a Ba) as La.
+    set (b := st_built s). set (c1 := upd (st_cache s) a v).
+    set (c2 := reset_forced W b a c1). cbn zeta.
+    destruct (forced_props W b WF a c1 La) as (M & Na & V & D). fold c2 in M, Na, V, D.
+    pose proof (forced_desc W b a c1) as Desc. fold c2 in Desc.
+    assert (C1: forall m, m <> a -> c1 m = st_cache s m) by (intros; unfold c1; now apply upd_other).
+    assert (NI: forall m, isinput m = false -> m <> a) by (intros m Hm ->; congruence).
+    assert (K1: Closed W b c1).
+    { intros p Lp Ip Hp d Hd. apply succs_spec in Hd. destruct Hd as (Ld & Bd & Hd).
+      assert (Id: isinput d = false) by (eapply dep_noninput; eauto).
+      rewrite C1 in * by auto. rewrite <- (vc_built s d Bd).
+      apply (inv_clo s I p d); auto. eapply (inv_deps s I); eauto. }
+    destruct (forced_closed W b WF a c1 La K1) as [K2 Ka]. fold c2 in K2, Ka.
+    pose proof (closed_desc W b WF c2 a (inv_deps s I) K2 Ka Na) as DescNone.
+    (* inputs other than a keep their value *)
+    assert (Inp: forall k, k < N -> isinput k = true -> k <> a -> c2 k = st_cache s k).
+    { intros k Lk Ik Ka'. destruct (Desc k) as [H|[H|H]]; [rewrite H; auto|congruence|].
+      destruct H as (H2&_&_). rewrite (anc_noninput W WF _ _ Lk H2) in Ik. discriminate. }
+    assert (Sp: forall n, n < N -> n <> a -> ~ anc a n ->
+                  spec (upd c2 a v) n = spec (st_cache s) n).
+    { intros n Ln Hn NA. apply (spec_indep W sem WF _ _ a n Ln); auto.
+      intros m Lm Im Hm. rewrite upd_other by auto. auto. }
+    split; [|split; [cbn [st_cache]; apply upd_same|
+                     intros k Lk Ik Hk; cbn [st_cache]; rewrite upd_other by auto; auto]].
+    split; cbn [st_cache st_built]; fold b.
+    - apply (inv_lt s I).
+    - apply (inv_deps s I).
+    - intros n Bn. assert (Hna: n <> a) by (intros ->; unfold b in Bn; congruence).
+      rewrite upd_other by auto. pose proof (inv_unbuilt s I n Bn) as U.
+      destruct (Desc n) as [H|[H|(_&_&H)]]; [rewrite H, C1; auto|congruence|].
+      congruence.
+    - intros n Ln In. unfold vc. cbn [st_cache st_built]. fold b. rewrite In, orb_false_r.
+      pose proof (NI n In) as Hn. rewrite upd_other by auto.
+      destruct (b n) eqn:Bn.
+      + intros H. rewrite (mono_some c1 c2 n M H), C1 by auto.
+        assert (NA: ~ anc a n) by (intros A; apply H; apply DescNone; auto).
+        rewrite Sp by auto. apply (Inv_I1 s I n Bn In).
+        rewrite <- C1 by auto. rewrite <- (mono_some c1 c2 n M H). auto.
+      + intros H. assert (NA: ~ anc a n).
+        { intros A. destruct (Late n Ln A Bn) as [R|R]; rewrite R in H; try congruence.
+          destruct (isrange n); congruence. }
+        rewrite Sp by auto. rewrite <- (inv_coh s I n Ln In); rewrite vc_unbuilt; auto.
+    - intros p d Ld Hd Bp Ip Hp.
+      assert (Id: isinput d = false) by (eapply dep_noninput; eauto).
+      pose proof (NI p Ip) as Hpa. pose proof (NI d Id) as Hda.
+      rewrite upd_other in Hp by auto.
+      unfold vc. cbn [st_cache st_built]. fold b. rewrite Id, orb_false_r.
+      rewrite upd_other by auto.
+      destruct (is_none (st_cache s p)) eqn:E0.
+      + apply is_none_true in E0. pose proof (inv_clo s I p d Ld Hd Bp Ip E0) as Old.
+        unfold vc in Old. fold b in Old. rewrite Id, orb_false_r in Old.
+        destruct (b d); auto. apply (mono_none c1 c2 d M). rewrite C1; auto.
+      + apply is_none_false in E0. rewrite <- C1 in E0 by auto.
+        destruct (b d) eqn:Bd.
+        * apply (V p E0 Hp Hpa Hp). apply succs_spec; auto.
+        * destruct (Desc p) as [H|[H|(H&_&_)]]; [congruence|congruence|].
+          assert (A: anc a d) by (eapply anc_trans; eauto).
+          destruct (Late d Ld A Bd) as [R|R]; rewrite R; auto.
+          destruct (isrange d); auto.
+  Qed.
 End Inv.
